@@ -3,7 +3,8 @@ LEVEL = "proof"
 RULE = ("(T) tools/omp_extract.py regenerates lean/Generated/Sched.lean from the C++ of twelve kernel-dispatch parallel regions "
         "(residual give/take, four smoothers, both direct-solver assemblies, four smoother-matrix assemblies: 72 work-sharing loops) "
         "on every run; the theorems of Props/C11.lean unfold these generated terms, so a changed stride / start / nowait / barrier "
-        "changes the term and the proof no longer checks; then the regenerated executable schedule is searched for a concrete "
+        "changes the term and the proof no longer checks; (F) the hand-written kernel footprints the theorems quantify over are compared with the "
+        "cells the real kernels write / read (harness h_foot, one call per kernel x line x colour); then the regenerated executable schedule is searched for a concrete "
         "conflicting pair of iterations on all small admissible shapes (every residue class of nc mod 2,3,4 and ntheta mod 3,4).  "
         "The thorough tier additionally runs the operators and a whole setup()+solve() under ThreadSanitizer + Archer.  "
         "Distinct by (region, shape)")
@@ -29,12 +30,18 @@ def run(ctx):
     # search of the regenerated schedule for a concrete conflict (also the replay when the proof breaks)
     bounds = ("10", "20") if ctx.tier == "quick" else ("14", "28")
     ctx.pipe(["true"], f"sched {bounds[0]} {bounds[1]}", label="schedule-search")
+    # footprint tie: every vector kernel of the six residual / smoother regions is called once per line and colour on the real
+    # classes; observed writes / reads must lie inside the model's footprints, and the generated schedule is searched for a
+    # conflict on the OBSERVED footprints
+    h = ctx.build_harness("h_foot")
+    ctx.pipe([h, "4" if ctx.tier == "quick" else "24"], "foot", label="footprints")
     if ctx.tier == "thorough":
         tsan(ctx)
     ctx.assumptions += ["the OpenMP runtime and memory model are trusted: a program without data races behaves as some interleaving of its iterations; "
                         "schedule(static) default; barrier at the end of every `omp for` without nowait",
-                        "kernel footprints (which rows / lines a kernel call touches) are hand-written from the kernel sources (DESIGN.md Appendix F) and "
-                        "validated dynamically by ThreadSanitizer in the thorough tier, not derived",
+                        "kernel footprints (which rows / lines a kernel call touches) are hand-written (GMGModel/Sched.lean); for the 6 vector-kernel "
+                        "classes they are checked against the real member functions on every run (h_foot: perturbation probe, observed ⊆ model); "
+                        "for the 6 matrix-assembly classes they are validated only by ThreadSanitizer in the thorough tier",
                         "36 further `parallel for` / owner-computes regions (transfers, level caches, rhs, vector kernels, exact error) are outside the schedule "
                         "model; they are covered by the ThreadSanitizer runs only"]
 
